@@ -39,6 +39,13 @@ def run(ctx):
     crc(ctx)
     canon(ctx)
     source(ctx)
+    # the fullnames hashed are the ones the parser resolves: name-key construction and namespace threading (shared with C07)
+    from . import c07
+    rn = fn_by_label(f, c07.PM + 'SchemaConstructionState::register_node')
+    if rn is not None:
+        fam = [rn] + f.closures_of(rn)
+        c07.nsarg(ctx, rn, fam)
+        c07.namekey(ctx, rn, fam)
 
 
 def crc(ctx):
@@ -314,6 +321,35 @@ def canon(ctx):
         nm = [w.term(bb) for bb in sorted(r.blocks) if w.term(bb)['k'] == 'call' and strip_generics(cname(w.term(bb))).endswith('Name::name')]
         fq = [w.term(bb) for bb in sorted(r.blocks) if w.term(bb)['k'] == 'call' and strip_generics(cname(w.term(bb))).endswith('Name::fully_qualified_name')]
         ctx.ob('CANON', 'fullname/%s' % kind, len(fq) >= 1 and not nm, short_loc(w.span), '%s arm writes fully_qualified_name() (%d) and never the short name (%d)' % (kind, len(fq), len(nm)))
+    # dynamic parts: fullname, symbols, field names and the fixed size are written as they are (Display of the value,
+    # no digit arithmetic, no transformation)
+    for kind, r in sorted(kinds.items()):
+        if kind not in ('Record', 'Enum', 'Fixed'):
+            continue
+        n = 0
+        bad = []
+        for bb in sorted(r.blocks):
+            t = w.term(bb)
+            if t['k'] != 'call' or w.is_cleanup(bb):
+                continue
+            c = strip_generics(cname(t))
+            if c.endswith('ErrorConversionWriter::write_str') or c.endswith('ErrorConversionWriter::write_char'):
+                o = origin(w, t['args'][1])
+                if [a for a in o.atoms if a[0] != 'const']:
+                    n += 1
+                    if o.has_arith() or [x for x in o.flags if x.startswith('cast:')]:
+                        bad.append('%s at %s' % (o.describe()[:60], short_loc(t.get('span'))))
+            elif c.endswith('::write_fmt'):
+                n += 1
+                flds = deep_fields(w, t['args'][1], 4)
+                names = deep_call_names(w, t['args'][1])
+                if kind == 'Fixed' and not ('size' in flds and any('new_display' in x for x in names)):
+                    bad.append('write! of %s' % sorted(flds))
+        if kind == 'Fixed':
+            fm = [bb for bb in r.blocks if w.term(bb)['k'] == 'call' and strip_generics(cname(w.term(bb))).endswith('::write_fmt')]
+            if len(fm) != 1:
+                bad.append('size must be written by exactly one Display formatting of fixed.size (found %d)' % len(fm))
+        ctx.ob('CANON', 'dynamic-parts/%s' % kind, not bad and n >= 1, short_loc(w.span), '%d dynamic write(s) in the %s arm; transformed / hand-formatted ones: %s' % (n, kind, bad or 'none'))
     # templates
     for kind, want in TEMPLATES.items():
         r = kinds.get(kind)
